@@ -11,7 +11,9 @@ TYPE_EXT = {
     'GlobalEnvironment': {'decl': _opaque('GlobalEnvironment', 'crate::vm::environment::GlobalEnvironment')},
     'StackTrace': {'decl': _opaque('StackTrace', 'crate::vm::trace::StackTrace')},
     'Cell': {'decl': _opaque('Cell', 'crate::cell::Cell')},
-    'Error': {'decl': _opaque('Error', 'crate::error::Error')},
+    'Error': {'decl': '#[verifier::external_type_specification] pub struct ExError(crate::error::Error);', 'needs': ['Cell', 'ParseError', 'LexError']},
+    'ParseError': {'decl': _opaque('ParseError', 'crate::parse::Error')},
+    'LexError': {'decl': _opaque('LexError', 'crate::lex::Error')},
     'Number': {'decl': _opaque('Number', 'crate::number::Number')},
     'Vector': {'decl': _opaque('Vector', 'crate::vm::vector::Vector')},
     'Continuation': {'decl': _opaque('Continuation', 'crate::vm::continuation::Continuation')},
@@ -32,7 +34,7 @@ GROUPS = {
     'num': ['number'],
     'run': ['vm_struct', 'run'],
     'gc': ['gc'],
-    'heap': ['gc', 'heap'],
+    'heap': ['gc', 'vcell', 'heap'],
 }
 
 PROPS = {
